@@ -11,14 +11,14 @@ cp "$M/seeded_demo.rs" tests/seeded_demo.rs
 FEAT=""
 if grep -q 'feature = "persistence"' tests/seeded_demo.rs; then FEAT="--features persistence"; fi
 if grep -q 'feature = "shuttle"' tests/seeded_demo.rs; then FEAT="--features shuttle"; fi
-cargo test --offline -j8 $FEAT --test seeded_demo > /tmp/confirm_demo_with.log 2>&1; WITH=$?
+cargo test --offline -j8 $FEAT --test seeded_demo > /tmp/confirm_demo_with_$$.log 2>&1; WITH=$?
 rm -f tests/seeded_demo.rs
-cargo test --offline -j8 --workspace --no-fail-fast > /tmp/confirm_suite.log 2>&1; SUITE=$?
-PASSED=$(grep -E "^test result" /tmp/confirm_suite.log | awk '{s+=$4} END {print s}')
-FAILED=$(grep -E "^test result" /tmp/confirm_suite.log | awk '{s+=$6} END {print s}')
+cargo test --offline -j8 --workspace --no-fail-fast > /tmp/confirm_suite_$$.log 2>&1; SUITE=$?
+PASSED=$(grep -E "^test result" /tmp/confirm_suite_$$.log | awk '{s+=$4} END {print s}')
+FAILED=$(grep -E "^test result" /tmp/confirm_suite_$$.log | awk '{s+=$6} END {print s}')
 git checkout -q -- .
 cp "$M/seeded_demo.rs" tests/seeded_demo.rs
-cargo test --offline -j8 $FEAT --test seeded_demo > /tmp/confirm_demo_without.log 2>&1; WITHOUT=$?
+cargo test --offline -j8 $FEAT --test seeded_demo > /tmp/confirm_demo_without_$$.log 2>&1; WITHOUT=$?
 rm -f tests/seeded_demo.rs
 OK=false
 if [ $WITH -ne 0 ] && [ $SUITE -eq 0 ] && [ $WITHOUT -eq 0 ]; then OK=true; fi
